@@ -255,6 +255,7 @@ func (m *lockedMap[V]) Del(key, conflict uint64) (uint64, V) {
 }
 
 func (m *lockedMap[V]) DelExpired(key, conflict uint64, now time.Time) (V, time.Time, bool) {
+	verifYield(verifSiteStoreDel, key)
 	m.Lock()
 	defer m.Unlock()
 	item, ok := m.data[key]
